@@ -87,7 +87,20 @@ class Failure(Exception):
 # 1. regenerate the model from the repository's current working tree
 
 
-def regen(log):
+def export_head(log):
+    """the committed version of the repository's sources (git archive HEAD), used only
+    to rebuild a model for the SEARCH when the working tree no longer translates"""
+    dst = os.path.join(BUILD, "head-src")
+    shutil.rmtree(dst, ignore_errors=True)
+    os.makedirs(dst)
+    rc, out, _ = sh(f"git -C {REPO} archive HEAD | tar -x -C {dst}", timeout=120)
+    if rc != 0:
+        raise Failure("infra", "git archive HEAD failed", out)
+    return dst
+
+
+def regen(log, repo=None):
+    repo = repo or REPO
     with Lock():
         tdir = os.path.join(BUILD, "target-rs2j")
         src = os.path.join(VERIF, "tools", "rs2j")
@@ -95,7 +108,7 @@ def regen(log):
         if not os.path.exists(lock):
             shutil.copy(os.path.join(REPO, "Cargo.lock"), lock)
         rc, out, dt = sh(["cargo", "build", "--offline", "--quiet"], cwd=src, timeout=900,
-                         env={"CARGO_TARGET_DIR": tdir, "VERIF_REPO": REPO})
+                         env={"CARGO_TARGET_DIR": tdir, "VERIF_REPO": repo})
         log(f"[regen] cargo build rs2j rc={rc} {dt:.1f}s")
         if rc != 0:
             log(out[-4000:])
@@ -103,13 +116,13 @@ def regen(log):
                           "(qty-macros/src/quantity_attr_helper.rs no longer offers parse_item/analyze/parse_args/codegen as the translator uses them)",
                           out[-3000:])
         jpath = os.path.join(BUILD, "repo.json")
-        rc, out, dt = sh(f"{tdir}/debug/rs2j dump {REPO} {VERIF}/tools/synthetic_defs.rs > {jpath}.tmp", timeout=300)
+        rc, out, dt = sh(f"{tdir}/debug/rs2j dump {repo} {VERIF}/tools/synthetic_defs.rs > {jpath}.tmp", timeout=300)
         if rc != 0:
             log(out[-4000:])
             raise Failure("tie", "rs2j dump failed: the repository's sources do not parse / the macro code panicked", out[-3000:])
         os.replace(jpath + ".tmp", jpath)
         sync_coq_sources(log)
-        rc, out, dt = sh([sys.executable, os.path.join(VERIF, "tools", "j2v", "main.py"), jpath, REPO,
+        rc, out, dt = sh([sys.executable, os.path.join(VERIF, "tools", "j2v", "main.py"), jpath, repo,
                           os.path.join(COQDIR, "Gen")], timeout=300)
         log(f"[regen] j2v rc={rc} {dt:.1f}s: {out.strip()[-2000:]}")
         if rc == 3:
